@@ -45,8 +45,10 @@ def inFragment (l : Layout) : Bool :=
      base.all (fun (_, a) => match a with
        | .keyCode _ => true
        | .oneShot (.keyCode _) _ _ | .oneShot (.multipleKeyCodes _) _ _ | .oneShot (.layer _) _ _ => true
+       | .oneShotIgnoreEventsTicks _ => true   -- t5: `one-shot-pause-processing` keys (O1, O2 only)
+       | .noOp => true                         -- t5: `XX` keys and unmapped positions
        | _ => false) &&
-     upper.all (fun tbl => tbl.all fun (_, a) => match a with | .keyCode _ | .trans => true | _ => false))
+     upper.all (fun tbl => tbl.all fun (_, a) => match a with | .keyCode _ | .trans | .noOp => true | _ => false))
 
 def nEvents (h : List HEv) : Nat :=
   (h.filter fun e => match e with | .tick _ => false | _ => true).length
@@ -91,48 +93,143 @@ def specRun (cfg : LCfg) (d : Nat) : List HEv → SpecRun → SpecRun
 def fmtCh (l : List (Nat × List Nat)) : String :=
   " ".intercalate (l.map fun (t, ks) => s!"@{t} K{Lay.fmtKeys ks}")
 
-/-- for each plain press of the history (in order): must it come out unmodified?  `some why` when
- (press variants) an earlier plain press, (release variants) an earlier press-and-release of a plain
- key, lies between the last one-shot key press and this press — or no one-shot key was pressed
- before at all — and no one-shot key is physically down. -/
-def mustBePlain (oss : List OsKey) (plains : List (Coord × Nat)) (pressV : Bool) (h : List HEv) :
-    List (Coord × Option String) :=
+/-! ### t5: per-one-shot-key reading of "exactly the next key" (O2)
+
+The statement speaks about each one-shot key separately: "its key or layer stays active until the
+first following non-one-shot key is pressed (released) ... and it affects nothing after that point:
+... the second following key is never modified".  So for a plain press P and a one-shot key k: when a
+plain key was pressed (press variants) / pressed and released (release variants) between the last
+press of k and P - or k was never pressed - and no one-shot key is physically down, then P must not
+carry the markers of k.  (The earlier version only spoke when this held for ALL one-shot keys at
+once, i.e. it forgot everything at each one-shot press: a one-shot activated between the first and
+the second following key hid a lingering earlier one.)
+
+`one-shot-pause-processing p` keys of the base layer ("pause one-shot processing of new input
+keypresses for a time", docs/config.adoc): a plain press up to `p` (+ the queue latency bound `slack`)
+ticks after the press of such a key is not counted as a following key - the oracle is silent about
+what it does to the one-shot.  A press after that window counts.
+
+chords v2 whose action is a one-shot of keys: the participants are neither plain keys nor one-shot
+keys for the oracle (no verdict for them; while one is physically down no verdict at all - the chord
+may be held as a one-shot key), the chord's own markers are never forbidden. -/
+
+structure PauseKey where
+  coord : Coord
+  ticks : Nat
+
+/-- keys of the base layer that do nothing (`XX`, unmapped positions): following non-one-shot keys
+without an output of their own -/
+def noopKeys (l : Layout) : List Coord :=
+  match l.cfg.layers with
+  | tbl :: _ => tbl.filterMap fun (c, a) => match a with | .noOp => some c | _ => none
+  | [] => []
+
+def pauseKeys (l : Layout) : List PauseKey :=
+  match l.cfg.layers with
+  | tbl :: _ => tbl.filterMap fun (c, a) => match a with
+      | .oneShotIgnoreEventsTicks p => some { coord := c, ticks := p }
+      | _ => none
+  | [] => []
+
+/-- per one-shot key: pressed at all, plain presses since its last press, one of those released -/
+structure OsTrack where
+  key : OsKey
+  seen : Bool := false
+  since : List Coord := []
+  rel : Bool := false
+
+def OsTrack.forbidden (pressV : Bool) (k : OsTrack) : Bool :=
+  !k.seen || (if pressV then !k.since.isEmpty else k.rel)
+
+structure Verdict where
+  coord : Coord
+  /-- markers that must not be down when this press comes out -/
+  noMarkers : List Nat
+  /-- it must come out as its base-layer key code (every layer one-shot key is over) -/
+  base : Bool
+  deriving Repr
+
+/-- for each plain press of the history (in order) what must hold of it; `none`: nothing is required
+(a one-shot key or a chord participant is physically down) -/
+def mustBePlain (oss : List OsKey) (plains : List (Coord × Nat)) (pauses : List PauseKey)
+    (noops : List Coord) (parts : List Coord) (slack : Nat) (pressV : Bool) (h : List HEv) : List (Coord × Option Verdict) :=
   let isOs (c : Coord) := oss.any (·.coord == c)
   let isPlain (c : Coord) := plains.any (·.1 == c)
-  -- state: os keys down, whether any os press seen, plain presses since last os press,
-  --        whether a plain key pressed since the last os press has been released since
-  let rec go : List Coord → Bool → List Coord → Bool → List HEv → List (Coord × Option String)
+  let markers := (oss.flatMap (·.markers)).eraseDups
+  let rec go : List Coord → List OsTrack → Nat → Nat → List HEv → List (Coord × Option Verdict)
     | _, _, _, _, [] => []
-    | osDown, seen, since, rel, .press c :: r =>
-      if isOs c then go (c :: osDown) true [] false r
+    | osDown, tr, now, pauseUntil, .press c :: r =>
+      if isOs c then
+        go (c :: osDown) (tr.map fun k => if k.key.coord == c then { k with seen := true, since := [], rel := false } else k)
+          now pauseUntil r
+      else if parts.contains c then go (c :: osDown) tr now pauseUntil r
       else if isPlain c then
-        let verdict : Option String :=
+        let verdict : Option Verdict :=
           if !osDown.isEmpty then none
-          else if !seen then some "no one-shot key was pressed before it"
-          else if pressV then (if since.isEmpty then none else some "it is not the first key pressed after the one-shot key")
-          else (if rel then some "a key pressed after the one-shot key was released before it" else none)
-        (c, verdict) :: go osDown seen (since ++ [c]) rel r
-      else go osDown seen since rel r
-    | osDown, seen, since, rel, .release c :: r =>
-      if isOs c then go (osDown.erase c) seen since rel r
-      else go osDown seen since (rel || since.contains c) r
-    | osDown, seen, since, rel, .tick _ :: r => go osDown seen since rel r
-  go [] false [] false h
+          else
+            let fb := tr.filter (·.forbidden pressV)
+            let live := tr.filter (!·.forbidden pressV)
+            some { coord := c,
+                   noMarkers := markers.filter fun m => !live.any (·.key.markers.contains m),
+                   base := !live.any (·.key.layer.isSome) && !fb.isEmpty }
+        let tr := if now > pauseUntil then tr.map fun k => { k with since := k.since ++ [c] } else tr
+        (c, verdict) :: go osDown tr now pauseUntil r
+      else if noops.contains c then
+        -- a following key like any other; it has no output, so there is no verdict for it
+        let tr := if now > pauseUntil then tr.map fun k => { k with since := k.since ++ [c] } else tr
+        go osDown tr now pauseUntil r
+      else
+        match pauses.find? (·.coord == c) with
+        | some p => go osDown tr now (max pauseUntil (now + p.ticks + slack)) r
+        | none => go osDown tr now pauseUntil r
+    | osDown, tr, now, pauseUntil, .release c :: r =>
+      if isOs c || parts.contains c then go (osDown.erase c) tr now pauseUntil r
+      else go osDown (tr.map fun k => { k with rel := k.rel || k.since.contains c }) now pauseUntil r
+    | osDown, tr, now, pauseUntil, .tick n :: r => go osDown tr (now + n) pauseUntil r
+  go [] (oss.map fun k => { key := k }) 0 0 h
 
-def oracle (l : Layout) (hist : List HEv) (items : List Trace.Item) : String :=
+/-- chords v2 inside the fragment: every chord action is a one-shot of key codes; returns the
+participating coordinates (row 0), the chords' markers, their variants, and the largest pending
+duration + one-shot timeout -/
+def chv2Info (v2 : Option ChV2Cfg) : Option (List Coord × List Nat × List OneShotEnd × Nat) :=
+  match v2 with
+  | none => some ([], [], [], 0)
+  | some cfg =>
+    let chords := cfg.mapping.flatMap (·.2)
+    let infos := chords.map fun ch => match ch.action with
+      | .oneShot (.keyCode k) T v => some ([k], v, T + ch.pending)
+      | .oneShot (.multipleKeyCodes ks) T v => some (ks, v, T + ch.pending)
+      | _ => none
+    if infos.any (·.isNone) then none else
+    let infos := infos.filterMap id
+    some ((chords.flatMap fun ch => ch.keys.map fun y => ((0, y) : Coord)).eraseDups,
+          (infos.flatMap (·.1)).eraseDups, infos.map (·.2.1), infos.foldl (fun m x => max m x.2.2) 0)
+
+def oracle (l : Layout) (v2 : Option ChV2Cfg) (hist : List HEv) (items : List Trace.Item) : String :=
   let oss := osKeys l
   if oss.isEmpty || !inFragment l then "skip" else
-  let plains := plainKeys l
-  let known := oss.map (·.coord) ++ plains.map (·.1)
+  match chv2Info v2 with
+  | none => "skip"
+  | some (parts, chMarkers, chVariants, chMax) =>
+  let pauses := pauseKeys l
+  let plains0 := plainKeys l
+  -- chord participants must be plain keys of the base layer; they are not `plains` for the oracle
+  if !parts.all (fun c => plains0.any (·.1 == c)) then "skip" else
+  let plains := plains0.filter fun p => !parts.contains p.1
+  let partCodes := (plains0.filter fun p => parts.contains p.1).map (·.2)
+  let noops := noopKeys l
+  let known := oss.map (·.coord) ++ plains0.map (·.1) ++ pauses.map (·.coord) ++ noops
   if !consistentBalanced known hist then "skip" else
   let d := l.oneshot.pauseInputProcessingDelay
-  let maxT := oss.foldl (fun m k => max m k.timeout) 0
+  let maxT := max (oss.foldl (fun m k => max m k.timeout) 0) chMax
   let nEv := nEvents hist
   let tail := match hist.getLast? with | some (.tick n) => n | _ => 0
   let markers := (oss.flatMap (·.markers)).eraseDups
   let pcodes := plainCodes l plains
-  let disjoint := markers.all fun m => !pcodes.contains m
-  let uniform := oss.all fun k => k.variant == (oss.head?.map (·.variant)).getD .firstPress
+  let disjoint := (markers ++ chMarkers ++ partCodes).all (fun m => !pcodes.contains m) &&
+    chMarkers.all (fun m => !markers.contains m)
+  let v0 := (oss.head?.map (·.variant)).getD .firstPress
+  let uniform := oss.all (fun k => k.variant == v0) && chVariants.all (· == v0)
   -- O1: nothing is down at the end of a balanced history
   let settled := tail ≥ maxT + 2 + nEv * (d + 1)
   let o1 : Option String :=
@@ -145,7 +242,7 @@ def oracle (l : Layout) (hist : List HEv) (items : List Trace.Item) : String :=
   let o2 : List String :=
     if !uniform || !disjoint || nEv > 32 then [] else
     let pressV := isPressVariant ((oss.head?.map (·.variant)).getD .firstPress)
-    let verdicts := mustBePlain oss plains pressV hist
+    let verdicts := mustBePlain oss plains pauses noops parts (nEv * (d + 1) + 2) pressV hist
     let ds := (downs items).filter fun dn => pcodes.contains dn.2
     if ds.length != verdicts.length then
       (if settled then [s!"{verdicts.length} plain key presses but {ds.length} plain key outputs"] else [])
@@ -153,16 +250,18 @@ def oracle (l : Layout) (hist : List HEv) (items : List Trace.Item) : String :=
       (verdicts.zip ds).filterMap fun ((c, v), (t, k)) =>
         match v with
         | none => none
-        | some why =>
+        | some v =>
           let base := ((plains.find? (·.1 == c)).map (·.2)).getD 0
           let ks := ((items.find? (·.tick == t)).map (·.keys)).getD []
-          let mods := ks.filter markers.contains
-          if k != base then some s!"plain key {c.2} came out as {k} at tick {t} although {why}"
-          else if !mods.isEmpty then some s!"one-shot keys {mods} are down when plain key {c.2} goes down at tick {t} although {why}"
+          let mods := ks.filter v.noMarkers.contains
+          if v.base && k != base then
+            some s!"plain key {c.2} came out as {k} at tick {t} although every one-shot key's activation was over before it (it is not the first key after any of them, or none was pressed)"
+          else if !mods.isEmpty then
+            some s!"one-shot keys {mods} are down when plain key {c.2} goes down at tick {t} although it is not the first key pressed (released) after their one-shot keys"
           else none
   -- O3: the whole trace against the specification, where it is not silent
   let o3 : Option String :=
-    if !uniform then none else
+    if !uniform || v2.isSome || !pauses.isEmpty then none else
     let r := specRun l.cfg d hist {}
     if r.s.silent then none else
     let exp := changes r.out.toList
@@ -184,7 +283,7 @@ def runOracle (line : String) : String × String :=
   | .error _ => ("skip", "-")
   | .ok c =>
     match c.layout, Trace.parse impl with
-    | some l, some items => (oracle l c.hist items, "-")
+    | some l, some items => (oracle l c.chv2 c.hist items, "-")
     | _, _ => ("skip", "-")
 
 end KVerif.Drv.C06
